@@ -102,7 +102,12 @@ func Open(dir string, config Config) (*DB, error) {
 }
 
 func (db *DB) Close() {
-	defer atomic.StoreUint32(&db.state, uint32(StateClosed))
+	// refuse new commits and wait for the commit in flight,
+	// the run loop must not exit while a committer is handing over a memtable
+	atomic.StoreUint32(&db.state, uint32(StateClosed))
+	db.oracle.writeLock.Lock()
+	defer db.oracle.writeLock.Unlock()
+
 	db.closeC <- struct{}{}
 	// wait until every queued immutable memtable is flushed: a sstable must never hold
 	// newer versions than a wal which is still to be flushed, recovery relies on that order
@@ -219,7 +224,8 @@ func (db *DB) flushImmutable(imt *memtable) {
 }
 
 func (db *DB) run() {
-	atomic.StoreUint32(&db.state, uint32(StateOpened))
+	// Close may already have been called
+	atomic.CompareAndSwapUint32(&db.state, uint32(StateInitialize), uint32(StateOpened))
 	var closed bool
 LOOP:
 	for {
